@@ -9,6 +9,11 @@
 (*   vdepth    the nesting counter of the cached delimited-verbatim parser            *)
 (*             (Variant "as_implemented": kept on the instance, never reset)          *)
 (*   frozen    context databases frozen by a walker                                   *)
+(*   leaked    per context: names defined locally *while parsing* (an environment     *)
+(*             whose body extends the context through ParsingStateDeltaExtend-          *)
+(*             LatexContextDb) that have become visible in the database the caller       *)
+(*             handed in (Variant "ext_leaks": extended_with() shares its dictionaries  *)
+(*             with the database it extends; intended: always empty)                     *)
 (* A document is abstracted to what matters for this state: the argument kinds it     *)
 (* uses, whether it contains a nested verbatim argument (v{a{b}c}) and which context  *)
 (* it is parsed with.  Parse(d) yields a result tag: "base" (the result a fresh       *)
@@ -20,14 +25,19 @@ CONSTANTS Docs,        \* set of document ids (1..n)
           Uses,        \* doc -> set of argument kinds
           NestedVerb,  \* set of docs with a nested verbatim argument
           CtxOf,       \* doc -> context name
+          LocalDefs,   \* doc -> names the document's constructs define locally for a part of the document
+          FreeNames,   \* doc -> names the document uses outside any construct that defines them
           MaxLen, Variant, Emit_
 
-VARIABLES cache, inner, vdepth, frozen, hist, results
-vars == <<cache, inner, vdepth, frozen, hist, results>>
+VARIABLES cache, inner, vdepth, frozen, leaked, hist, results
+vars == <<cache, inner, vdepth, frozen, leaked, hist, results>>
 
-Init == cache = {} /\ inner = {} /\ vdepth = 1 /\ frozen = {} /\ hist = <<>> /\ results = <<>>
+Init == cache = {} /\ inner = {} /\ vdepth = 1 /\ frozen = {} /\ leaked = {} /\ hist = <<>> /\ results = <<>>
 
-Result(d) == IF Variant = "as_implemented" /\ d \in NestedVerb /\ vdepth # 1 THEN "deviant" ELSE "base"
+Leaks(c) == { x[2] : x \in { y \in leaked : y[1] = c } }
+Result(d) == IF Variant = "as_implemented" /\ d \in NestedVerb /\ vdepth # 1 THEN "deviant"
+             ELSE IF FreeNames[d] \cap Leaks(CtxOf[d]) # {} THEN "deviant"      \* a leaked definition changes how the name parses
+             ELSE "base"
 Parse(d) ==
     /\ Len(hist) < MaxLen
     /\ cache' = cache \cup Uses[d]
@@ -36,12 +46,15 @@ Parse(d) ==
                  THEN (IF d \in NestedVerb /\ vdepth # 1 THEN vdepth ELSE 0)     \* counter left at 0 after a complete parse
                  ELSE vdepth
     /\ frozen' = frozen \cup {CtxOf[d]}
+    /\ leaked' = IF Variant = "ext_leaks" THEN leaked \cup { <<CtxOf[d], x>> : x \in LocalDefs[d] } ELSE leaked
     /\ hist' = Append(hist, d)
     /\ results' = Append(results, Result(d))
 Next == \E d \in Docs : Parse(d)
 Spec == Init /\ [][Next]_vars
 
 Pure == \A i \in 1..Len(results) : results[i] = "base"
+(* parsing never modifies the context database it is given *)
+DbUnchanged == leaked = {}
 (* the hidden state only grows monotonically and never feeds back into results (intended) *)
 CacheMonotone == [][cache \subseteq cache' /\ inner \subseteq inner']_vars
 Emit == Emit_ => PrintT(ToJson([hist |-> hist, results |-> results]))
